@@ -133,6 +133,7 @@ static void RUN(long caseno, char kind, long k, char *ops)
     ENT **buf;
     char *tok;
     long maxnodes = 0;
+    long start = 0;   /* id of the node the tear-down starts at (0: the documented default, NULL = the root) */
     F(root)(&root);
     for (tok = strtok(ops, " \t\r\n"); tok; tok = strtok(0, " \t\r\n"))
     {
@@ -150,6 +151,7 @@ static void RUN(long caseno, char kind, long k, char *ops)
             for (i = tabn; i < nn; ++i) { tab[i] = 0; }
             tabn = nn;
         }
+        if (op == 's') { start = id; continue; }
         if (op == 'i')
         {
             ENT *e;
@@ -189,7 +191,8 @@ static void RUN(long caseno, char kind, long k, char *ops)
             ++maxnodes;
         }
     }
-    printf("case %ld %c k=%ld\n", caseno, kind, k);
+    if (start <= 0 || start >= tabn || !tab[start]) { start = 0; }
+    printf("case %ld %c k=%ld s=%ld\n", caseno, kind, k, start);
     fflush(stdout);
     buf = (ENT **)malloc((size_t)(maxnodes + 1) * sizeof(ENT *));
     CAT(shape_, RUN)("shape", &root, buf, &n, maxnodes);
@@ -218,7 +221,7 @@ static void RUN(long caseno, char kind, long k, char *ops)
         T_NODE *cur, *next;
         yielded = 0;
         printf("tear");
-        next = A_NULL;
+        next = start ? &tab[start]->n : A_NULL;   /* "next: input starting node or, if null, root node" */
         if (k > 0)
         {
             for (cur = F(tear)(&root, &next); cur; cur = F(tear)(&root, &next))
